@@ -48,8 +48,8 @@ def sched_features(sched, w):
     return f
 
 
-HOLD_THREADS = ["transport_layer_thread", "recv_message_monitor", "PSM", "consumer-0", "consumer-1", "submitter-0", "submitter-1", "closer"]
-HOLD_KINDS = ["lock.acquire", "lock.release", "event.set", "event.clear", "event.wait", "queue.put", "queue.get", "queue.empty",
+HOLD_THREADS = ["transport_layer_thread", "transport_layer_thread", "recv_message_monitor", "recv_message_monitor", "PSM", "PSM", "consumer-0", "consumer-1", "submitter-0", "submitter-1", "closer"]
+HOLD_KINDS = ["lock.acquire", "lock.release", "lock.released", "lock.released", "lock.released", "event.set", "event.clear", "event.wait", "queue.put", "queue.get", "queue.empty",
               "selector.select", "selector.modify", "sock.recv", "sock.send", "sleep"]
 
 
@@ -57,7 +57,11 @@ def holds(max_n=2):
     """targeted delays: thread T pauses at its n-th visit of a point of kind K for d virtual seconds"""
     one = st.builds(lambda t, k, n, d: [t, k, n, d], st.sampled_from(HOLD_THREADS), st.sampled_from(HOLD_KINDS), st.integers(1, 6),
                     st.sampled_from([0.001, 0.02, 0.3]))
-    return st.one_of(st.just([]), st.just([]), st.lists(one, min_size=1, max_size=max_n))
+    # directed recipes: a library thread is delayed, for longer than a state-machine tick, right after it left a critical
+    # section (its n-th one since the generated part began) - the classic check-then-act window
+    recipe = st.builds(lambda t, n, d: [[t, "lock.released", n, d]], st.sampled_from(["transport_layer_thread", "recv_message_monitor", "PSM"]),
+                       st.integers(1, 5), st.sampled_from([0.02, 0.02, 0.3]))
+    return st.one_of(st.just([]), recipe, st.lists(one, min_size=1, max_size=max_n))
 
 
 def apply_holds(world, holds_):
